@@ -1075,6 +1075,30 @@ var rulePool = &Rule{
 							if x.Op == token.MUL {
 								// load: of a local struct being assembled (walk its stores) or of shared memory (param-derived: fine)
 								if al, ok := x.X.(*ssa.Alloc); ok {
+									// the VALUE of a local is copied into the message: the local itself is not shared, what it
+									// holds may be (a by-value parameter that was spilled because its address is taken elsewhere
+									// holds the parameter)
+									if _, isStruct := al.Type().Underlying().(*types.Pointer).Elem().Underlying().(*types.Struct); isStruct && !definedIn(body, al) {
+										if refs := al.Referrers(); refs != nil {
+											for _, r := range *refs {
+												switch y := r.(type) {
+												case *ssa.Store:
+													if y.Addr == ssa.Value(al) {
+														walk(y.Val, d+1)
+													}
+												case *ssa.FieldAddr:
+													if frefs := y.Referrers(); frefs != nil {
+														for _, rr := range *frefs {
+															if st, ok := rr.(*ssa.Store); ok && st.Addr == ssa.Value(y) {
+																walk(st.Val, d+1)
+															}
+														}
+													}
+												}
+											}
+										}
+										return
+									}
 									walk(al, d+1)
 									return
 								}
